@@ -312,7 +312,10 @@ def oracle_c02(rec):
         elif e['t'] == 'dump':
             stats['dumps'] += 1
             b = e['snap']['best']
-            mn = min(v for _, v, _ in vals)
+            real_ = [v for _, v, _ in vals if v == v]
+            if not real_:
+                continue        # nothing but NaN has been returned so far: there is no best value yet
+            mn = min(real_)
             bf = fnum(b['fit'])
             if bf != mn:
                 issues.append(dict(what='best-not-min', ev=i, best_fit=bf, min=mn, stale_inherited=(stale is not None and bf == stale)))
@@ -332,7 +335,8 @@ def oracle_c02(rec):
                 issues.append(dict(what='best-shares-storage', ev=i, pairs=e['live']['alias']))
     if rec['error'] is None and rec.get('final') is not None and vals:
         b = rec['final']['best']
-        mn = min(v for _, v, _ in vals)
+        real_ = [v for _, v, _ in vals if v == v]
+        mn = min(real_) if real_ else fnum(b['fit'])
         if fnum(b['fit']) != mn:
             issues.append(dict(what='best-not-min', ev='final', best_fit=fnum(b['fit']), min=mn,
                                stale_inherited=(stale is not None and fnum(b['fit']) == stale)))
@@ -752,8 +756,23 @@ def oracle_c12(rec):
     pts = [(i, e['gp'], e['snap']) for i, e in enumerate(rec['events']) if e['t'] == 'dump']
     if rec.get('final_gp') is not None:
         pts.append(('final', rec['final_gp'], rec['final']))
+    recs = {i: e['live'].get('agents') for i, e in enumerate(rec['events']) if e['t'] == 'dump' and isinstance(e.get('live'), dict)}
     for i, g, snap in pts:
         stats['checks'] += 1
+        # the iteration *record* of agent j (what History is handed for `agents`) pairs with tree j of the space as well
+        ra = recs.get(i)
+        if ra is not None and len(ra) == len(g['vals']):
+            lb_, ub_ = g['lb'], g['ub']
+            for j, (tv, (rpos, rfit)) in enumerate(zip(g['vals'], ra)):
+                cv_ = np.array(tv, copy=True)
+                for q in range(min(len(lb_), cv_.shape[0])):
+                    cv_[q] = np.clip(cv_[q], lb_[q], ub_[q])
+                rp_ = np.asarray(rpos, dtype=float)
+                if cv_.shape != rp_.shape or not np.array_equal(cv_, rp_, equal_nan=True):
+                    issues.append(dict(what='recorded-agent-is-not-its-tree', ev=i, agent=j, tree=cv_.tolist(), recorded=rp_.tolist()))
+                    break
+        elif ra is not None:
+            issues.append(dict(what='counts', ev=i, trees=len(g['vals']), recorded_agents=len(ra)))
         if g['n_trees'] != cfg['n_agents'] or g['n_agents'] != cfg['n_agents']:
             issues.append(dict(what='counts', ev=i, trees=g['n_trees'], agents=g['n_agents']))
         lb, ub = g['lb'], g['ub']
@@ -764,7 +783,10 @@ def oracle_c12(rec):
             return out
         bv = clipv(g['best_val'])
         bp = snap['best']['pos']
-        if bv.shape != bp.shape or not np.array_equal(bv, bp, equal_nan=True):
+        upto = len(rec['events']) if i == 'final' else i
+        if not any(e_['t'] == 'eval' and fnum(e_['val']) == fnum(e_['val']) for e_ in rec['events'][:upto]):
+            pass                # nothing but NaN has been returned so far: there is no best individual yet
+        elif bv.shape != bp.shape or not np.array_equal(bv, bp, equal_nan=True):
             issues.append(dict(what='best-tree-value', ev=i, tree=bv.tolist(), best=bp.tolist()))
         elif fnum(of(bp)) != fnum(snap['best']['fit']):
             issues.append(dict(what='best-fitness', ev=i, objective=fnum(of(bp)), stored=fnum(snap['best']['fit'])))
